@@ -227,4 +227,41 @@ def run(ctx):
                         'a new worker shares the untagged task/result queues of its predecessor: an answer a timed-out or dead worker still '
                         'delivers is taken as the verdict of a later recording (draining the queues when the worker starts does not help: the '
                         'late answer arrives afterwards)'))
+    # ---------------- C08.b (handlers): a failure verdict is built from this iteration's id and exception only
+    for lp in [n for n in ast.walk(runc.node) if isinstance(n, ast.For)]:
+        for tr in [n for n in ast.walk(lp) if isinstance(n, ast.Try)]:
+            assigned = {x.id for s_ in tr.body for x in ast.walk(s_) if isinstance(x, ast.Name) and isinstance(x.ctx, ast.Store)}
+            for h in tr.handlers:
+                own = {x.id for s_ in h.body for x in ast.walk(s_) if isinstance(x, ast.Name) and isinstance(x.ctx, ast.Store)}
+                reads = {x.id for s_ in h.body for x in ast.walk(s_) if isinstance(x, ast.Name) and isinstance(x.ctx, ast.Load)}
+                stale_l = sorted((reads & assigned) - own - ({h.name} if h.name else set()))
+                cb.instance('failure handler of the iteration reads no local that the failed attempt may not have assigned (%s)' % (stale_l or 'none'),
+                            runc.qualname, not stale_l)
+                cb.evaluations += 1
+                if stale_l:
+                    res.add(Finding('C08', 'C08.b', 'R-PROV', runc.file, runc.qualname, h.lineno, 'handler reads %s' % stale_l,
+                                    'the failure verdict of an iteration reads %s, assigned inside the attempt that just failed: when the failure '
+                                    'came before that assignment the value is the previous recording\'s (or unset), so the verdict labelled with this '
+                                    'id carries another recording\'s data' % stale_l))
+    # ---------------- C08.i a failure costs that recording only: the next dispatch finds a usable worker (shared with C13.f)
+    cni = res.clause('C08.i', 'R-ORDER', 'after a worker failure the next dispatch does not trip over the forgotten handle', floor=1)
+    c13.nullable_handle_clause(ctx, res, cni, 'C08', 'C08.i')
+    # ---------------- C08.h the worker may start processes of its own (replayed code is arbitrary): it is not a daemon process
+    chd = res.clause('C08.h', 'R-AGREE', 'the dedicated worker is a non-daemon process (same verdicts as in-process execution)', floor=1)
+    dm = []
+    for m in eq.methods.values():
+        for n in ast.walk(m.node):
+            if isinstance(n, ast.Call) and norm(n.func).endswith('Process') and any(k.arg == 'daemon' and not (isinstance(k.value, ast.Constant) and k.value.value is False) for k in n.keywords):
+                dm.append((m, n))
+            if isinstance(n, ast.Assign) and any(isinstance(t, ast.Attribute) and t.attr == 'daemon' for t in n.targets) and \
+                    not (isinstance(n.value, ast.Constant) and n.value.value is False):
+                dm.append((m, n))
+            if isinstance(n, ast.Call) and isinstance(n.func, ast.Attribute) and n.func.attr == 'setDaemon':
+                dm.append((m, n))
+    chd.instance('worker process created without the daemon flag', er.create.qualname, not dm)
+    chd.evaluations += 1
+    for m, n in dm[:1]:
+        res.add(Finding('C08', 'C08.h', 'R-AGREE', m.file, m.qualname, n.lineno, norm(n)[:100],
+                        'the dedicated worker is made a daemon process: a daemonic process may not have children, so a replay that starts a process '
+                        '(pool, subprocess helper) fails in the worker while the same replay succeeds in-process - the two modes give different verdicts'))
     return res
